@@ -4,6 +4,7 @@ import Nsq.Model.ChanNsqd
 import Nsq.Model.ChanInv
 import Nsq.Model.Pump
 import Nsq.Model.TopicPause
+import Nsq.Model.ChanStats
 /-! Driver for engine E2 (nsqd / topic / channel / client state machine).
 One operation per input line, one canonical answer line out (DESIGN Appendix B). -/
 open Nsq Nsq.Line
@@ -140,6 +141,26 @@ def apply (s : State) (op : Nsq.Model.ChanNsqd.Op) (sorted : Bool := false) : St
   let r := step s op
   (r.1, if sorted then showSorted r.2 else showOut r.2)
 
+/-- `statsq` lines (audit B14): the rows `Nsq.Model.ChanStats.rows fmt (filterSnap ft fc incl (snapshot s))` — the
+very function `Props.C13.render_agree` / `render_complete` are about — in a canonical form the harness also derives
+from the real `/stats` answer (JSON or text) under the same filter -/
+def statsqLine (s : State) (fmt ft fc incl : String) : String :=
+  open Nsq.Model.ChanStats in
+  let f : Fmt := if fmt == "json" then .json else .text
+  let inc := incl == "1"
+  let rs := rows f (filterSnap (nat? ft) (nat? fc) inc (snapshot s))
+  let key (r : Row) : Nat × Nat := (r.key.1, match r.key.2 with | none => 0 | some c => c + 1)
+  let srt := sortBy (fun (a b : Row) => (key a).1 < (key b).1 || ((key a).1 == (key b).1 && (key a).2 < (key b).2)) rs
+  let nums (l : List Int) : String := joinSp (l.map toString)
+  let one (r : Row) : String :=
+    match r.key.2 with
+    | none => s!"T{r.key.1} {nums r.nums}" ++ (match r.jsonOnly with | [] => "" | l => s!" b={nums l}")
+    | some c =>
+      let cls := sortBy (· < ·) (r.clients.map (fun cl => s!"{cl.rdy}:{cl.inFlight}:{cl.msgs}:{cl.fin}:{cl.req}"))
+      s!"C{r.key.1}/{c} {nums r.nums}" ++ (match r.jsonOnly with | [] => "" | l => s!" n={nums l}") ++
+        (if inc then " cl=[" ++ "|".intercalate cls ++ "]" else "")
+  if srt.isEmpty then "-" else "; ".intercalate (srt.map one)
+
 /-- one token of a `tpause` line (leg `busypause`, audit A10): a micro-step of `Nsq.Model.TopicPause` -/
 def tpTok (w : String) : Option Nsq.Model.TopicPause.Op :=
   open Nsq.Model.TopicPause in
@@ -259,6 +280,7 @@ def stepLine (s : State) (line : String) : State × String :=
   | ["rchan", eph, memq, mem, dq, mc, q, ifs, dfs, cls] => (s, rchanCheck eph memq mem dq mc q ifs dfs cls)
   | ["reset"] => ({}, "ok")
   | "tpause" :: toks => (s, tpRun {} toks)
+  | ["statsq", fmt, ft, fc, incl] => (s, statsqLine s fmt ft fc incl)
   | _ => (s, "bad-op")
 
 /-- lines of the pump / output-buffer leg (`P …`, harness/e2/e2_pump_test.go) -/
